@@ -255,8 +255,8 @@ func (r *Report) Finish(verifDir, evDir string, seed int) int {
 		"samples":             samples,
 		"all_obligation_keys": obligationKeys(r.Obs),
 		"counters":            r.Counters,
-		"not_decided":         r.NotDec,
-		"notes":               r.Notes,
+		"not_decided":         nonNil(r.NotDec),
+		"notes":               nonNil(r.Notes),
 		"packages_loaded":     len(r.e.All),
 		"repo_packages":       len(r.e.RepoPackages()),
 		"timings_s":           r.e.timings,
@@ -282,7 +282,7 @@ func (r *Report) Finish(verifDir, evDir string, seed int) int {
 		"seed":        seed,
 		"level":       "other",
 		"coverage":    cov,
-		"assumptions": r.Assume,
+		"assumptions": nonNil(r.Assume),
 		"wall_s":      time.Since(r.start).Seconds(),
 		"violations":  nviol,
 	}
@@ -359,4 +359,11 @@ func obligationKeys(obs []*Obligation) []string {
 		out = append(out, fmt.Sprintf("%s %s %s", o.Status, o.Rule, o.Construct))
 	}
 	return out
+}
+
+func nonNil(s []string) []string {
+	if s == nil {
+		return []string{}
+	}
+	return s
 }
